@@ -74,6 +74,8 @@ structure Supported (s : Sig) (b : Base) : Prop where
   scaleCoherent : ∀ w, s.scale = some w → 3 ∈ s.layout ∨ w = 0
   ts1Coherent : s.quirks .zeroTs1 = true → 8 ∈ s.layout
   ts2Coherent : s.quirks .nzTs2 = true → 8 ∈ s.layout ∧ impTcpType s b = F_SYN
+  -- the IP options and the TCP options fit their headers (at most 40 bytes each)
+  sizeOk : s.olen ≤ 40 ∧ layoutLen (bodyLayout s) + (if endsEol s then 1 + s.eolPad else 0) ≤ 40
 
 /-! ### the option list for plain layouts -/
 
@@ -669,6 +671,7 @@ structure RunFacts (s : Sig) (b : Base) (hops : Int) (mtu : Nat) (up : Option In
     (s.wtype = .mss → o.window = lastMssOf (bodyOpts s b up c) 0 * s.wsize ∧
       ∃ v, SOpt.mss v ∈ bodyOpts s b up c) ∧
     (s.wtype = .any → o.window = b.window)
+  optLen : (encodeOpts o.opts).length ≤ 40
 
 theorem lastMssOf_append_nomss (l t : List SOpt) (d : Nat) (ht : t.any SOpt.isMss = false) :
     lastMssOf (l ++ t) d = lastMssOf l d := by
@@ -861,16 +864,22 @@ theorem run_facts (s : Sig) (b : Base) (hops : Int) (mtu : Nat) (up : Option Int
       obtain ⟨_, rfl⟩ := hx
       split <;> simp [SOpt.stretchy]
     · rfl
-  have hsplit : impOptions s b up c = body' ++ tailOpts s ∧ ((body' ++ tailOpts s).map SOpt.wireLen).sum % 4 = 0 := by
+  have hbs : ((bodyOpts s b up c).map SOpt.wireLen).sum = layoutLen (bodyLayout s) := i4
+  have hts := tailOpts_wireLen s
+  have hsz := hsup.sizeOk.2
+  have hsplit : impOptions s b up c = body' ++ tailOpts s ∧ ((body' ++ tailOpts s).map SOpt.wireLen).sum % 4 = 0 ∧
+      ((body' ++ tailOpts s).map SOpt.wireLen).sum ≤ 40 := by
     unfold impOptions
     rw [alignOptions_eq, hgo, ← hmissing]
     cases hany : (bodyOpts s b up c).any SOpt.stretchy with
     | true =>
       rw [stretchFirst_append_of_any _ _ _ hany, ← hbody']
-      refine ⟨rfl, ?_⟩
-      rw [hbody', List.map_append, List.sum_append, stretchFirst_wireLen _ _ hany]
       rw [List.map_append, List.sum_append] at hmissing
-      omega
+      refine ⟨rfl, ?_, ?_⟩
+      · rw [hbody', List.map_append, List.sum_append, stretchFirst_wireLen _ _ hany]
+        omega
+      · rw [hbody', List.map_append, List.sum_append, stretchFirst_wireLen _ _ hany]
+        omega
     | false =>
       -- nothing to stretch: the signature's layout fills a multiple of four bytes by itself
       have hal : (layoutLen (bodyLayout s) + if endsEol s = true then 1 + s.eolPad else 0) % 4 = 0 := by
@@ -895,8 +904,10 @@ theorem run_facts (s : Sig) (b : Base) (hops : Int) (mtu : Nat) (up : Option Int
       have : (bodyOpts s b up c ++ tailOpts s).any SOpt.stretchy = false := by
         rw [List.any_append, hany, htail_ns]; rfl
       rw [stretchFirst_of_none _ _ this, hb]
-      exact ⟨rfl, htot⟩
-  obtain ⟨hopts, hlen⟩ := hsplit
+      refine ⟨rfl, htot, ?_⟩
+      rw [List.map_append, List.sum_append]
+      omega
+  obtain ⟨hopts, hlen, hlen40⟩ := hsplit
   have i2' : ∀ o ∈ body', o.WF := by rw [hbody']; exact stretchFirst_wf missing hm3 _ i2 i6
   have i3' : ∀ o ∈ body', o ≠ .eol := by rw [hbody']; exact stretchFirst_ne_eol missing _ i3
   have hfold : ∀ isSyn st, body'.foldl (fun st x => stepOpt isSyn x st) st =
@@ -980,12 +991,15 @@ theorem run_facts (s : Sig) (b : Base) (hops : Int) (mtu : Nat) (up : Option Int
             sport := b.sport, dport := b.dport, seq := impSeq s b c, ack := impAck s b c,
             flags := impFlags s b.flags, urp := impUrp s b c,
             window := win, opts := impOptions s b up c, payload := impPayload s b c }, ?_⟩
-  refine ⟨?_, i1, ?_, i5, i3, ⟨hw1, hw2, hw3, hw4⟩⟩
+  refine ⟨?_, i1, ?_, i5, i3, ⟨hw1, hw2, hw3, hw4⟩, ?_⟩
   · unfold impTcp
     simp only [hver, Bool.false_eq_true, ↓reduceIte, hw0]
   · intro isSyn
     simp only [hopts]
     exact hparsed isSyn
+  · simp only [hopts, henc, List.length_append, flatMap_encode_length]
+    rw [List.map_append, List.sum_append] at hlen40
+    exact hlen40
 
 /-! ### the quirks of the output are the signature's -/
 
@@ -1619,7 +1633,8 @@ theorem exSig_supported : Supported exSig exBase := by
            eolPad0 := fun _ => rfl, olenV := ⟨fun _ => rfl, by decide⟩,
            ttlOk := by decide, mssFits := ?_, scaleFits := ?_, winOk := ?_, noBad := by decide, eolNzCoherent := by decide,
            idCoherent := by decide, ackCoherent := by decide, urgCoherent := by decide, famCoherent := ?_,
-           exwsCoherent := ?_, mssCoherent := ?_, scaleCoherent := ?_, ts1Coherent := by decide, ts2Coherent := by decide }
+           exwsCoherent := ?_, mssCoherent := ?_, scaleCoherent := ?_, ts1Coherent := by decide, ts2Coherent := by decide,
+           sizeOk := by rw [hb, he]; decide }
   · intro k hk; rw [hb] at hk; simp at hk; rcases hk with rfl | rfl | rfl <;> simp
   · intro m hm; simp [exSig] at hm
   · intro w hw; simp [exSig] at hw; omega
@@ -1660,14 +1675,18 @@ theorem layoutLenB_eq (l : List Nat) : layoutLenB l = layoutLen l := rfl
 theorem supportedB_sound (s : Sig) (b : Base) (h : supportedB s b = true) : Supported s b := by
   unfold supportedB at h
   simp only [Bool.and_eq_true] at h
-  obtain ⟨⟨⟨⟨⟨⟨⟨⟨⟨⟨⟨⟨⟨⟨⟨⟨⟨⟨⟨⟨⟨⟨⟨⟨⟨⟨⟨⟨a1, a2⟩, a3⟩, a4⟩, a5⟩, a6⟩, a7⟩, a8⟩, a9⟩, a10⟩, a11⟩, a12⟩, a13⟩, a14⟩, a15⟩, a16⟩, a17⟩, a18⟩, a19⟩, a20⟩, a21⟩, a22⟩, a23⟩, a24⟩, a25⟩, a26⟩, a27⟩, a28⟩, a29⟩ := h
+  obtain ⟨⟨⟨⟨⟨⟨⟨⟨⟨⟨⟨⟨⟨⟨⟨⟨⟨⟨⟨⟨⟨⟨⟨⟨⟨⟨⟨⟨⟨⟨a1, a2⟩, a3⟩, a4⟩, a5⟩, a6⟩, a7⟩, a8⟩, a9⟩, a10⟩, a11⟩, a12⟩, a13⟩, a14⟩, a15⟩, a16⟩, a17⟩, a18⟩, a19⟩, a20⟩, a21⟩, a22⟩, a23⟩, a24⟩, a25⟩, a26⟩, a27⟩, a28⟩, a29⟩, a30⟩, a31⟩ := h
   have hshape : s.layout = bodyLayout s ++ (if endsEol s then [0] else []) := by
     have := a29
     simp only [beq_iff_eq] at this
     exact this
   refine { version := ?_, layoutShape := hshape, layoutPlain := ?_, aligned := ?_, eolPad0 := ?_, olenV := ?_, ttlOk := ?_, mssFits := ?_,
            scaleFits := ?_, winOk := ?_, noBad := ?_, eolNzCoherent := ?_, idCoherent := ?_, ackCoherent := ?_, urgCoherent := ?_,
-           famCoherent := ?_, exwsCoherent := ?_, mssCoherent := ?_, scaleCoherent := ?_, ts1Coherent := ?_, ts2Coherent := ?_ }
+           famCoherent := ?_, exwsCoherent := ?_, mssCoherent := ?_, scaleCoherent := ?_, ts1Coherent := ?_, ts2Coherent := ?_,
+           sizeOk := ⟨by simpa using a30, by
+             have := a31
+             simp only [decide_eq_true_eq] at this
+             exact this⟩ }
   · cases hv : s.ipVer with
     | none => exact Or.inl rfl
     | some v => right; simp [hv] at a1; rw [a1]
